@@ -11,3 +11,14 @@ for fi in r.functions.values():
     out.setdefault(q, set()).update(local_names(fi.node))
 json.dump({k: sorted(v) for k, v in sorted(out.items())}, open(os.path.join(os.path.dirname(os.path.dirname(os.path.abspath(__file__))), 'scverif', 'refs', 'locals.json'), 'w'), indent=0)
 print(len(out), 'functions')
+
+# ordered non-parameter locals of every outermost function (used by loader.canonicalise_locals)
+from scverif.loader import ordered_locals, _outer_functions
+order = {}
+for m in r.modules.values():
+    for fq, fn in _outer_functions(m):
+        ol = ordered_locals(fn)
+        if ol:
+            order[fq] = ol
+json.dump(order, open(os.path.join(os.path.dirname(os.path.dirname(os.path.abspath(__file__))), 'scverif', 'refs', 'locals_order.json'), 'w'), indent=0, sort_keys=True)
+print(len(order), 'functions with pinned local order')
